@@ -106,10 +106,26 @@ def execute(ch, conf):
                 async def batch():
                     return [await ec.find_free_address() for _ in range(3)]
                 coros.append(batch())
+            if workload == "alloc-scan-alloc":
+                # an address reserved ahead of its use survives a scan
+                async def history():
+                    a = await ec.find_free_address()
+                    await ec.scan_serial_numbers()
+                    return [a, await ec.find_free_address()]
+                coros.append(history())
+            if workload == "alloc+scan":
+                coros += [ec.find_free_address(), ec.scan_serial_numbers(),
+                          ec.find_free_address()]
             fut = asyncio.gather(*coros, return_exceptions=True)
 
             def on_idle(master):
                 n = len(master.transport.inflight)
+                if n and loop.next_timer() is not None:
+                    # somebody waits with a time-out: the frame may be
+                    # slower than that
+                    if ch.choose(2, "late"):
+                        loop.advance()
+                        return True
                 if n >= 2:
                     c = ch.choose(n, "deliver")
                     master.deliver(c)
@@ -132,7 +148,7 @@ def execute(ch, conf):
                 for r in fut.result():
                     if isinstance(r, list):
                         given += r
-                    elif not isinstance(r, BaseException):
+                    elif isinstance(r, int):
                         given.append(r)
         finally:
             loop.shutdown()
@@ -170,6 +186,11 @@ def judge(conf, ch, obs, res):
     if obs.get("given") and len(set(obs["given"])) != len(obs["given"]):
         bad("each address handed out once", obs["given"],
             "address handed out twice")
+    for addr in obs.get("given") or []:
+        if addr in handed:
+            bad("an address given to a caller is not also written to a "
+                "terminal", (addr, handed[addr]),
+                "address handed out twice")
     nz = [a for a in obs["final"] if a]
     if len(set(nz)) != len(nz):
         bad("distinct station addresses", obs["final"],
@@ -191,7 +212,8 @@ def configs(ctx):
             for workload in ("init", "scan", "both"):
                 out.append((pre, workload))
             if n == 2:
-                out += [(pre, "alloc"), (pre, "alloc-seq")]
+                out += [(pre, "alloc"), (pre, "alloc-seq"),
+                        (pre, "alloc-scan-alloc"), (pre, "alloc+scan")]
     return out
 
 
